@@ -30,6 +30,11 @@ func init() {
 		Run: c20Concurrent, MaxOps: 1 << 20, Horizon: 500 * time.Hour,
 		Doc: "a send-loop task and a receive-loop task (plus a reader) drive one TimeoutManager concurrently with the call patterns of the connection; floor / static / monotonic-boost invariants after every call",
 	})
+	simrt.Register(&simrt.Scenario{
+		Prop: "C20", Name: "conn-karn", Count: tiered(1500, 240000),
+		Run: c20ConnKarn, MaxOps: 2 << 20, Horizon: 3 * time.Hour,
+		Doc: "the manager inside a live connection pair in adaptive mode: lossy client-to-server link, a transport write call that returns 0-2 s after the packet is on its way (so acknowledgements can come back while the call is still running); at every ACK delivered to the client for a packet that had been transmitted more than once, the base resend timeout must be the same before and after it is processed",
+	})
 }
 
 // ---- reference model (written from the statement, not from the code) ------
@@ -483,4 +488,125 @@ func c20Handshake(rc *simrt.RunCtx) {
 	sw, stx, ss := expect(sEv, cEv, SYNACK, so.at)
 	judge("server", so, sw, stx, ss, hsS)
 	rc.Sample("lat=%v hsC=%v hsS=%v mult=%d drop=%d: client sent %d SYN -> %v, server sent %d SYN -> %v", lat, hsC, hsS, mult, drop, ctx, co.timeout, stx, so.timeout)
+}
+
+
+// c20ConnKarn: the "no sample from a retransmitted packet" rule as the
+// connection applies it, with send callbacks that take their time.
+func c20ConnKarn(rc *simrt.RunCtx) {
+	n := []uint8{1, 3, DefaultN}[rc.Pick(3, "knob.n")]
+	lat := time.Duration(1+rc.Pick(10, "net.lat")) * time.Millisecond
+	lag := []time.Duration{0, 50 * time.Millisecond, 500 * time.Millisecond, 2 * time.Second}[rc.Pick(4, "net.sendlag")]
+	dropPm := []int{20, 100, 300}[rc.Pick(3, "net.drop")]
+	tk := tknobs{handshake: 300 * time.Millisecond, resend: time.Second} // adaptive
+	rc.Knob("case", fmt.Sprintf("N=%d lat=%v write-call-lag=%v drop=%d", n, lat, lag, dropPm))
+	c2s := &netCfg{latMin: lat, latMax: lat}
+	s2c := &netCfg{latMin: lat, latMax: lat}
+	np := newNetPair(rc, c2s, s2c)
+	freq := 1 + rc.Pick(4, "knob.updatefreq")
+	opts := []Option{WithTimeoutOptions(append(tk.opts(), WithTimeoutUpdateFrequency(freq))...)}
+	p := startPair(rc, np, n, opts, opts)
+	if !p.waitBoth(time.Minute) {
+		rc.HarnessError("fault-free handshake did not complete")
+		p.closeAll()
+		return
+	}
+	cli, e1 := p.cli.get()
+	srv, e2 := p.srv.get()
+	if e1 != nil || e2 != nil || cli == nil || srv == nil {
+		rc.HarnessError("fault-free handshake failed: %v %v", e1, e2)
+		p.closeAll()
+		return
+	}
+	defer p.closeAll()
+	base := func() time.Duration {
+		cli.timeoutManager.mu.RLock()
+		defer cli.timeoutManager.mu.RUnlock()
+		return cli.timeoutManager.resendTimeout
+	}
+	var mu sync.Mutex
+	txCount := map[uint8]int{} // transmissions of each sequence number since it was last acknowledged
+	type pend struct {
+		seq    uint8
+		before time.Duration
+		tx     int
+	}
+	var pending *pend
+	check := func() {
+		mu.Lock()
+		pd := pending
+		pending = nil
+		mu.Unlock()
+		if pd == nil {
+			return
+		}
+		if after := base(); after != pd.before {
+			rc.Violate("c20.sample-from-retransmission", "base-timeout-changed-by-ack-of-resent-packet", "ACK(%d) acknowledged a packet that had been transmitted %d times; processing it changed the client's base resend timeout from %v to %v (write calls return %v late, one-way latency %v, N=%d)", pd.seq, pd.tx, pd.before, after, lag, lat, n)
+		}
+	}
+	np.c2s.mu.Lock()
+	np.c2s.sendLag = lag
+	c2s.dropPm = dropPm
+	np.c2s.onSend = func(b []byte) {
+		if len(b) >= 4 && b[0] == DATA {
+			mu.Lock()
+			txCount[b[1]]++
+			mu.Unlock()
+		}
+	}
+	np.c2s.mu.Unlock()
+	// the previous packet has been processed by the client's receive loop
+	// whenever that loop comes back for the next one: wrap its receive side
+	inner := np.s2c.tap
+	np.s2c.mu.Lock()
+	np.s2c.tap = func(b []byte) {
+		if inner != nil {
+			inner(b)
+		}
+		check() // the packet before this one is done
+		if len(b) >= 2 && b[0] == ACK {
+			mu.Lock()
+			if c := txCount[b[1]]; c >= 2 {
+				pending = &pend{seq: b[1], before: base(), tx: c}
+				rc.Probe("c20.ack-of-resent-packet")
+			}
+			txCount[b[1]] = 0
+			mu.Unlock()
+		}
+	}
+	np.s2c.mu.Unlock()
+	go func() {
+		for {
+			if _, err := srv.Recv(); err != nil {
+				return
+			}
+		}
+	}()
+	msgs := 20 + rc.Pick(60, "wl.msgs")
+	rc.Sample("N=%d one-way %v write-call lag %v drop %d/1000: %d messages, adaptive timeouts", n, lat, lag, dropPm, msgs)
+	sent := make(chan struct{})
+	go func() {
+		defer close(sent)
+		for i := 0; i < msgs && !rc.Failed(); i++ {
+			if err := cli.Send(mkMsg('A', i, 20)); err != nil {
+				break
+			}
+			if simrt.Pm(300, "wl.pause") {
+				time.Sleep(time.Duration(1+simrt.Choose(1500, "wl.pauselen")) * time.Millisecond)
+			}
+		}
+	}()
+	// (with slow write calls, a large window and heavy loss the boosted
+	// timeouts make the transfer crawl: the run does not wait for its end)
+	select {
+	case <-sent:
+		time.Sleep(10 * time.Second)
+	case <-time.After(40 * time.Minute):
+		rc.Probe("c20.conn-karn-transfer-cut-short")
+	}
+	check()
+	if !rc.Failed() {
+		rc.Progress()
+		rc.Fault("slow-write-call")
+	}
 }
